@@ -1,4 +1,7 @@
 import DaeVerif.C11.Proofs
+import DaeVerif.C11.SchedProofs
+import DaeVerif.C11.SetLoopProofs
+import DaeVerif.C11.AnyBuf
 /-!
 # C11 — property theorems
 
@@ -491,5 +494,154 @@ theorem full_pattern_any_case (d name : Str) (hd : (lower d).all domainChars.isV
 example : docMatches [⟨0, .full, [⟨strOf "Example.com", true, 0⟩]⟩] 0 (strOf "Example.com") [] = true ∧
     docMatches [⟨3, .keyword, [⟨strOf "Google", true, 0⟩]⟩] 3 (strOf "www.GOOGLE.com.") [] = true ∧
     docMatches [⟨3, .keyword, [⟨strOf "$", true, 0⟩]⟩] 3 (strOf "x.net") [] = false := by decide
+
+/-! ## `MatchDomainBitmap` loop for loop, `Build` under every worker order, `Set` loop by loop
+
+The definitions of `Loop.lean` are what the driver executes for every `q` line (`Built.matchLoop`) and
+every bit-list script (`BitList.setLoop`). -/
+
+/-- **The loops of `MatchDomainBitmap` = the per-set definition.** For any built tables and ANY order
+(or multiplicity) of the three index lists that lists exactly the non-empty sets of each kind: the loops
+over `validTrieIndexes` / `validAcIndexes` / `validRegexpIndexes` — with the "already matched → continue"
+shortcut and the word writes `bitmap[i/32] |= 1 << (i%32)` — return the `[]uint32` of `Built.matchBitmap`
+(the definition the headline theorems are about). -/
+theorem match_loops_eq_per_set_definition (b : Built) (ix : Idx) (hv : ix.Valid b) (name : Str) (rxHits : List Nat)
+    (ws : List Nat) (h : b.matchBitmap name rxHits = some ws) : b.matchLoop ix name rxHits = some ws :=
+  matchLoop_of_matchBitmap b ix hv name rxHits ws h
+
+/-- so the order in which `Build`'s goroutines appended the indices cannot change an answer -/
+theorem index_order_irrelevant (b : Built) (ix₁ ix₂ : Idx) (h₁ : ix₁.Valid b) (h₂ : ix₂.Valid b) (name : Str)
+    (rxHits : List Nat) (ws : List Nat) (h : b.matchBitmap name rxHits = some ws) :
+    b.matchLoop ix₁ name rxHits = b.matchLoop ix₂ name rxHits := by
+  rw [matchLoop_of_matchBitmap b ix₁ h₁ name rxHits ws h, matchLoop_of_matchBitmap b ix₂ h₂ name rxHits ws h]
+
+/-- the sequential index lists are valid, and so is every order the driver accepts from the real `Build` -/
+theorem reported_index_order_is_valid (b : Built) (ix : Idx) (h : ix.permOf (Idx.ofBuilt b) = true) :
+    ix.Valid b ∧ (Idx.ofBuilt b).Valid b :=
+  ⟨Idx.valid_of_permOf b ix h, Idx.ofBuilt_valid b⟩
+
+set_option maxRecDepth 20000 in
+/-- non-vacuity: built tables with a trie set (`suffix:a`), two keyword sets and a regex set; the loops run
+in a non-ascending order and give the bitmap of the per-set definition -/
+example :
+    let b : Built := ⟨#[⟨[], none, [strOf "goog"], []⟩, ⟨[strOf "a.", strOf "a^"],
+        some (Trie.ofOuts domainChars (bfs [strOf "a.", strOf "a^"])), [], []⟩, ⟨[], none, [strOf "ab"], [7]⟩]⟩
+    let ix : Idx := ⟨[1], [2, 0], [2]⟩
+    ix.permOf (Idx.ofBuilt b) = true ∧ b.matchBitmap (strOf "Google.com.") [] = some [1] ∧
+      b.matchLoop ix (strOf "Google.com.") [] = some [1] ∧ b.matchLoop ix (strOf "xaby") [7] = some [4] ∧
+      b.matchLoop ix (strOf "x.A") [] = some [2] ∧ b.matchBitmap (strOf "x.A") [] = some [2] := by decide
+
+/-- **Headline on the loops, patterns in any letter case, any worker order.** For every table size, every
+acceptable `AddSet` log, every name of the property's alphabet and every order `ix` of the index lists
+valid for the built tables: the loops of `MatchDomainBitmap` return `ceil(n/32)` words, each `< 2^32`, in
+which bit `i % 32` of word `i / 32` is 1 exactly when `i < n` and some valid pattern added under `i`
+(lower-cased) matches the name according to its kind. -/
+theorem domain_matcher_loops_correct (n : Nat) (log : List AddCall) (name : Str) (rxHits : List Nat)
+    (hall : ∀ a ∈ log, callOk n a = true) (hn : plainName name = true) :
+    ∃ b, (Matcher.replay n log).build = .ok b ∧ ∀ ix : Idx, ix.Valid b →
+      ∃ ws, b.matchLoop ix name rxHits = some ws ∧ ws.length = (n + 31) / 32 ∧ (∀ w ∈ ws, w < 2 ^ 32) ∧
+        ∀ i, (ws.getD (i / 32) 0).testBit (i % 32) = (decide (i < n) && docMatches log i name rxHits) := by
+  obtain ⟨b, ws, hb, hws, h1, h2, h3⟩ := domain_matcher_bitmap_correct_any_case n log name rxHits hall hn
+  exact ⟨b, hb, fun ix hv => ⟨ws, matchLoop_of_matchBitmap b ix hv name rxHits ws hws, h1, h2, h3⟩⟩
+
+/-- **`Build` under every interleaving of its worker goroutines.** `Reach m` = the states reachable when
+the workers (one per non-empty keyword set, one per non-empty trie set) run their critical sections
+(`n.trie[idx] = t; n.validTrieIndexes = append(…, idx)` under the mutex; or `buildErr = err`) one after
+the other in ANY order.  Once all have committed: if the sequential `Matcher.build` gives tables `b`, no
+error was recorded, the tables written by the workers are `b` and their index lists are valid for `b`;
+if it fails with `e`, `buildErr = e`. -/
+theorem build_under_every_worker_order (m : Matcher) (hm : m.err = none) (s : BState) (hr : Reach m s)
+    (hp : s.pending = []) :
+    (∀ b, m.build = .ok b → s.err = none ∧ s.built m = b ∧ (s.idx m).Valid b) ∧
+    (∀ e, m.build = .error e → s.err = some e) :=
+  build_all_interleavings m hm s hr hp
+
+/-- non-vacuity: three keyword jobs; a reachable final state in which they committed in the order 5, 1, 3 -/
+example :
+    let m := Matcher.replay 8 [⟨3, .keyword, [⟨strOf "abc", true, 0⟩]⟩, ⟨1, .keyword, [⟨strOf "goog", true, 0⟩]⟩,
+      ⟨5, .keyword, [⟨strOf "b.org", true, 0⟩]⟩]
+    m.err = none ∧ m.jobs = [.ac 1, .ac 3, .ac 5] ∧
+    (((BState.init m).commit m (.ac 5)).commit m (.ac 1)).pending = [.ac 3] ∧
+    ((((BState.init m).commit m (.ac 5)).commit m (.ac 1)).commit m (.ac 3)).pending = [] ∧
+    ((((BState.init m).commit m (.ac 5)).commit m (.ac 1)).commit m (.ac 3)).vAc = [5, 1, 3] := by decide
+
+example (m : Matcher) : Reach m (((BState.init m).commit m (.trie 5))) ∨ Job.trie 5 ∉ (BState.init m).pending := by
+  by_cases h : Job.trie 5 ∈ (BState.init m).pending
+  · exact Or.inl (Reach.step Reach.init h)
+  · exact Or.inr h
+
+/-- **End to end under every worker order**: the answer of the loops on the tables and index lists of ANY
+reachable final state of `Build` is the documented one. -/
+theorem domain_matcher_correct_under_every_worker_order (n : Nat) (log : List AddCall) (name : Str)
+    (rxHits : List Nat) (hall : ∀ a ∈ log, callOk n a = true) (hn : plainName name = true)
+    (s : BState) (hr : Reach (Matcher.replay n log) s) (hp : s.pending = []) :
+    s.err = none ∧
+    ∃ ws, (s.built (Matcher.replay n log)).matchLoop (s.idx (Matcher.replay n log)) name rxHits = some ws ∧
+      ws.length = (n + 31) / 32 ∧
+      ∀ i, (ws.getD (i / 32) 0).testBit (i % 32) = (decide (i < n) && docMatches log i name rxHits) := by
+  obtain ⟨b, hb, hloop⟩ := domain_matcher_loops_correct n log name rxHits hall hn
+  have hm : (Matcher.replay n log).err = none := by
+    cases he : (Matcher.replay n log).err with
+    | none => rfl
+    | some e => simp [Matcher.build, he] at hb
+  obtain ⟨h1, h2, h3⟩ := (build_all_interleavings _ hm s hr hp).1 b hb
+  obtain ⟨ws, hws, hl, _, hbits⟩ := hloop _ h3
+  exact ⟨h1, ws, by rw [h2]; exact hws, hl, hbits⟩
+
+/-- **the documented meaning, evaluated once per query**: `docHitIdx` (what the driver computes) lists
+exactly the indices for which `docMatchesCore` holds -/
+theorem doc_hits_eq_docMatches (log : List AddCall) (i : Nat) (name : Str) (rxHits : List Nat) :
+    docMatches log i name rxHits = (docHitIdx (log.map AddCall.lowered) (normName name) rxHits).contains i :=
+  docMatchesCore_eq_docHitIdx _ i name rxHits
+
+example : docHitIdx ([⟨3, .keyword, [⟨strOf "Google", true, 0⟩]⟩, ⟨9, .full, [⟨strOf "x.y", true, 0⟩]⟩].map AddCall.lowered)
+    (normName (strOf "www.GOOGLE.com.")) [] = [3] := by decide
+
+/-- **`CompactBitList.Set`, loop by loop** (the outer loop over 16-bit slices of the value with `v >>= 16`,
+the inner loop for the bits that land in word `i` and the one for the bits that land in word `i+1`) performs
+exactly the flat single-bit writes of `setRaw` — for every unit size, index and value; so
+`bitlist_get_set` / `bitlist_get_append` hold of the loops. -/
+theorem bitlist_set_loops_eq_flat_writes (m : BitList) (iUnit v : Nat) : m.setLoop iUnit v = m.setRaw iUnit v :=
+  BitList.setLoop_eq_setRaw m iUnit v
+
+theorem bitlist_get_set_loops (m : BitList) (i v : Nat) (hok : WordsOk m.buf) (hu : 0 < m.unit)
+    (hv : v < 2 ^ m.unit) : (m.setLoop i v).get i = some v := by
+  rw [BitList.setLoop_eq_setRaw]; exact get_setRaw_same m i v hok hu hv
+
+set_option maxRecDepth 8000 in
+/-- non-vacuity: an 18-bit unit at index 1 (flat bits 18..35) straddles three 16-bit words: both inner loops
+and `v >>= 16` run -/
+example : ((BitList.new 18).setLoop 1 150001).get 1 = some 150001 ∧
+    ((BitList.new 18).setLoop 1 150001).buf.size = 3 := by decide
+
+/-! ## `pkg/anybuffer`: the storage under the bit lists, with its capacity -/
+
+/-- **`anybuffer.Buffer` refines the growable zero-initialised array** the bit-list model uses (`growBuf`):
+for every history of `Extend`s and writes through `Slice()` — no `Truncate` / `Reset`, which
+`CompactBitList` never calls — starting from `NewBuffer(size)`, the Go buffer (a slice of a backing array
+with spare capacity; `Extend` re-slices WITHOUT clearing when the capacity suffices and otherwise
+allocates `2*cap + n` and copies) shows exactly the zero-extended array with those writes; an
+out-of-range write panics in both. -/
+theorem anybuffer_refines_zero_extended_array (size : Nat) (ops : List ABOp)
+    (hno : ops.all ABOp.noTruncate = true) :
+    ((ABuf.new size).run ops).map ABuf.slice = zrun [] ops := by
+  have := ABuf.run_refines ops hno (ABuf.new size) (ABuf.new_tailZero size)
+  simpa [ABuf.slice, ABuf.new] using this
+
+/-- the same from `NewBufferFrom(a)` (`Tighten`) -/
+theorem anybuffer_from_refines (a : Array Nat) (ops : List ABOp) (hno : ops.all ABOp.noTruncate = true) :
+    ((ABuf.ofArray a).run ops).map ABuf.slice = zrun a.toList ops := by
+  have := ABuf.run_refines ops hno (ABuf.ofArray a) (ABuf.ofArray_tailZero a)
+  have e : (ABuf.ofArray a).slice = a.toList := by
+    simp only [ABuf.slice, ABuf.ofArray]
+    exact List.take_of_length_le (by simp)
+  rw [e] at this
+  exact this
+
+/-- non-vacuity, and why the hypothesis is needed: after a `Truncate` the re-slice exposes old contents -/
+example : ((ABuf.new 8).run [.extend 3, .write 2 7, .extend 6, .write 8 9]).map ABuf.slice =
+      some [0, 0, 7, 0, 0, 0, 0, 0, 9] ∧
+    ((ABuf.new 8).run [.extend 3, .write 2 7, .truncate 1, .extend 2]).map ABuf.slice = some [0, 0, 7] ∧
+    zrun [] [.extend 3, .write 2 7, .truncate 1, .extend 2] = some [0, 0, 0] := by decide
 
 end DaeVerif.C11.Props
